@@ -85,6 +85,7 @@ pub fn record(pool_paths: &str, w: &mut dyn Write, seed: u64, n_events: usize) {
     assert!(!items.is_empty(), "empty pool");
     // (scale-down maps are excluded: the Delaunay routines snap points closer than the documented snap radius)
     let has_both = items.iter().any(|i| i.general) && items.iter().any(|i| !i.general);
+    let multi: Vec<usize> = (0..items.len()).filter(|i| items[*i].mp.0.iter().any(|p| p.interiors().len() >= 2)).collect();
     let mut rng = StdRng::seed_from_u64(seed ^ 0xC10);
     let maps: Vec<ExactMap> = exact_maps().into_iter().filter(|m| !m.name.starts_with("scale_2m") && m.name != "shear_huge").collect();
     let mut emitted = 0usize;
@@ -92,12 +93,17 @@ pub fn record(pool_paths: &str, w: &mut dyn Write, seed: u64, n_events: usize) {
     while emitted < n_events {
         k += 1;
         let want_general = k % 3 == 2;
-        let it = loop {
+        // every fourth polygon has at least two holes (hole bookkeeping of the triangulators), if the pools have any
+        let want_multi = k % 4 == 3 && !multi.is_empty();
+        let it = if want_multi { &items[multi[rng.gen_range(0..multi.len())]] } else { loop {
             let c = &items[rng.gen_range(0..items.len())];
             if c.general == want_general || !has_both { break c; }
-        };
+        } };
         let mi = if k % 3 == 1 { Some(&maps[rng.gen_range(0..maps.len())]) } else { None };
-        let a = if k % 5 == 0 {
+        let a = if k % 8 == 7 {
+            // the same polygon with its holes listed in the opposite order
+            MultiPolygon::new(it.mp.0.iter().map(|p| Polygon::new(p.exterior().clone(), p.interiors().iter().rev().cloned().collect())).collect())
+        } else if k % 5 == 0 {
             // either winding: same polygon
             MultiPolygon::new(it.mp.0.iter().map(|p| Polygon::new(LineString::new(p.exterior().0.iter().rev().cloned().collect()), p.interiors().iter().map(|h| LineString::new(h.0.iter().rev().cloned().collect())).collect())).collect())
         } else {
